@@ -402,7 +402,7 @@ func (p *Parser) parseAssignStmt() ast.Statement {
 		return nil
 	}
 
-	stmt.Value = p.parseExpression(SUM)
+	stmt.Value = p.parseExpression(LOWEST)
 
 	// the embedded code is not closed by "}}"
 	if !p.peekTokenIs(token.RBRACES, token.SEMI, token.RPAREN) {
